@@ -242,6 +242,24 @@ fn sweep<E: FieldElement>(name: &str, alpha: &[E], maxlen: usize, pair_len: usiz
                 s.fail(format!("wrong:{name}:syn_div_roots_in_place"), k2, format!("{name} syn_div_roots_in_place({p:?}, {roots:?}) = {got:?}, long division gives {e:?}"));
             }
         }
+        // long dividends on a basis (the division is linear in the dividend)
+        for len in roots.len() + 1..=long.min(16) {
+            for u in 0..=len {
+                let p: Vec<E> = if u < len {
+                    (0..len).map(|i| if i == u { E::ONE } else { E::ZERO }).collect()
+                } else {
+                    (0..len).map(|i| alpha[(i * i + 1) % alpha.len()] + E::from((3 * i + 1) as u32)).collect()
+                };
+                s.evals += 1;
+                let (q, _) = r2::divrem(&w(&p), &w(&expect), &z);
+                let e = padded(&unw(&q), len);
+                let mut got = p.clone();
+                let k2 = format!("{key}/long/p={p:?}");
+                if guard!("syn_div_roots_in_place", k2.clone(), polynom::syn_div_roots_in_place(&mut got, roots)).is_some() && got != e {
+                    s.fail(format!("wrong:{name}:syn_div_roots_in_place"), k2, format!("{name} syn_div_roots_in_place({p:?}, {roots:?}) = {got:?}, long division gives {e:?}"));
+                }
+            }
+        }
     }
     // ---- binary: add, sub, mul, div over all ordered pairs ------------------------------------------
     for a in &small {
